@@ -5,6 +5,7 @@
   per-run random) iteration order; "for every hash seed" is quantification over all
   permutations of that list.
 -/
+import PurlModel.Lemmas.Utf8Order
 import PurlModel.Lemmas.Checksum
 import PurlModel.Lemmas.Build
 import PurlModel.Lemmas.Bytes
@@ -89,5 +90,11 @@ theorem insert_other_case_replaces_rust (c : Cksum) (hlow : ∀ kv ∈ c, rustUn
     (h : rustUnicode.lowerFull a = rustUnicode.lowerFull a') :
     ((c.insertRaw rustUnicode a w).insertRaw rustUnicode a' v).lookup (rustUnicode.lowerFull a) = some v :=
   insert_other_case_replaces rustUnicode c hlow a a' v w h
+
+/-- the serialiser sorts the entries with `sort_unstable_by(|a, b| a.0.cmp(b.0))`, i.e. by the UTF-8 BYTES of the
+algorithm names; the model sorts by scalar values — the same order for all names (non-ASCII algorithm names included),
+so "sorted by algorithm" in `text_shape` is the order the compiled code produces -/
+theorem algorithm_order_is_byte_order (a b : Str) : cmpBytes (utf8 a) (utf8 b) = cmpStr a b :=
+  cmpBytes_utf8 a b
 
 end Purl.C12
